@@ -308,7 +308,7 @@ func runCase(c *kit.Case, rng *rand.Rand, phase string, reorgFeature bool, early
 			close(ev.release)
 			break
 		}
-		if sclock.lastTickerD.Load() <= 0 || repeatedTick { // a tick is already queued: no clock movement
+		if sclock.lastTickerD.Load() <= 0 { // a tick is already queued: no clock movement
 			r.Count("ticks_delivered_from_backlog", 1)
 			close(ev.release)
 			continue
